@@ -72,6 +72,14 @@ def check(run, model, tier):
     ok = g.postdominates(i0, g.entry)
     run.inst('ORDER.start_at', f, 'init() runs on every path', ok, 'a path of start_at skips init()', obligation=True)
     late = [n for n in assigns('state.fun') + assigns('temp.fun') if g.exists_path(i0, n)]
+    # (what an except-handler does before it re-raises is the failure path: init() did not complete there)
+    failing = set()
+    for t_ in ast.walk(f.node):
+        if isinstance(t_, ast.Try):
+            for h_ in t_.handlers:
+                if h_.body and isinstance(h_.body[-1], ast.Raise):
+                    failing.update(id(x_) for b_ in h_.body for x_ in ast.walk(b_))
+    late = [n for n in late if id(n.ast) not in failing]
     run.inst('ORDER.start_at', f, 'the state is not overwritten after init()', not late, 'start_at rewrites the state after init(): %s' % [norm(n.ast) for n in late], obligation=True)
     for a in ('H1-H4 handler protocol (see C01)',):
         run.assume(a)
